@@ -219,6 +219,12 @@ class MappingStorage:
             # Step 2, GC.  A simple sweep+copy
             new_data = BTrees.OOBTree.OOBTree()
             to_copy = {ZODB.utils.z64}
+            # What was written after the pack time stays, with everything
+            # it refers to: a pack leaves the transactions after the pack
+            # time alone.
+            for oid, tid_data in self._data.items():
+                if tid_data.maxKey() > stop:
+                    to_copy.add(oid)
             while to_copy:
                 oid = to_copy.pop()
                 tid_data = self._data.pop(oid)
